@@ -6,6 +6,8 @@
 -/
 import VsgModel.Engine.RuleRun
 import VsgModel.Engine.Relations
+import VsgProofs.Lemmas.BaseWsFull
+import VsgProofs.Lemmas.BaseWsEffects
 namespace Vsgm.C10
 open Vsgm
 
@@ -57,5 +59,80 @@ example :
     let r : RuleCfg := ⟨"x_001", 6, 1, false, true, true, false⟩
     (ruleFix r sem none [A, a, A]).1 = [a, a, a] ∧ sem.analyze (ruleFix r sem none [A, a, A]).1 = [] := by
   decide
+
+/-! ### layer B-full: `_analyze` ∘ `_fix_violation` of whitespace_between_tokens (171 rules) — BEGIN ag_bws -/
+
+/-- **idempotence**: if the analysis of a token list of interest records a violation and the fix returns,
+    the analysis of the repaired tokens is clean — for every token list and every `number_of_spaces`
+    admitted by `idemGuard` (no negative width; not `>N` / `<N` on a pair WITHOUT whitespace; `<N` only with
+    N ≥ 1) and `shapeOk` (a two-token region is `[left, right]`, its second token is not whitespace) -/
+theorem bfix_wsBetween_idem_partial (wsCls : Nat) (nos : Base.NoS) (l l' : List Tok) (sp : Base.Val)
+    (ha : Base.WsBetween.analyzeToi nos l = .ok (.spaces sp))
+    (hf : Base.WsBetween.fixV wsCls nos [("spaces", sp)] l = .ok l')
+    (hs : Base.WsBetween.shapeOk l = true) (hg : Base.WsBetween.idemGuard nos l = true) :
+    Base.WsBetween.analyzeToi nos l' = .ok .clean :=
+  Base.WsBetween.analyze_fix_idem wsCls nos l l' sp ha hf hs hg
+
+/-- … and so is the analysis of any re-extracted region that shows the same whitespace view (same first two
+    tokens, "exactly two tokens" or not): what the next `analyze` sees after `vhdlFile.update` -/
+theorem bfix_wsBetween_idem_reextracted (wsCls : Nat) (nos : Base.NoS) (l l' m : List Tok) (sp : Base.Val)
+    (ha : Base.WsBetween.analyzeToi nos l = .ok (.spaces sp))
+    (hf : Base.WsBetween.fixV wsCls nos [("spaces", sp)] l = .ok l')
+    (hs : Base.WsBetween.shapeOk l = true) (hg : Base.WsBetween.idemGuard nos l = true)
+    (hm : Base.WsBetween.wsAt m = Base.WsBetween.wsAt l') : Base.WsBetween.analyzeToi nos m = .ok .clean := by
+  rw [Base.WsBetween.analyzeToi_of_view nos m l' hm]
+  exact Base.WsBetween.analyze_fix_idem wsCls nos l l' sp ha hf hs hg
+
+/-- the three functions of the rule parse `number_of_spaces` alike: the transcription equals the parsed-form view -/
+theorem wsBetween_judge_eq_form (nos : Base.NoS) (w : Option Nat) :
+    Base.WsBetween.judge nos w = Base.WsBetween.judgeF (Base.WsBetween.formOf nos) w :=
+  Base.WsBetween.judge_eq nos w
+
+/-- **the exact cause of the known finding (`secondFixChanges` at whitespace_between_tokens.Rule)**, for
+    every N ≥ 0: with `number_of_spaces: ">N"` and no whitespace between the pair
+    `extract_expected_number_of_spaces` answers N (`int(self.number_of_spaces[1:])`), the fix inserts N
+    blanks, and `analyze_gt_spaces` (`int(…[1:]) + 1`) reports that whitespace again, asking for N + 1 -/
+theorem wsBetween_gt_oscillates (k : Int) (hk : 0 ≤ k) :
+    Base.WsBetween.judgeF (.gt (.ok k)) none = .ok (.spaces (.int k)) ∧
+    Base.WsBetween.judgeF (.gt (.ok k)) (some k.toNat) = .ok (.spaces (.int (k + 1))) :=
+  Base.WsBetween.judgeF_gt_oscillates k hk
+
+/-- the same for `"<N"` (every N): N blanks inserted, then N − 1 demanded -/
+theorem wsBetween_lt_oscillates (k : Int) :
+    Base.WsBetween.judgeF (.lt (.ok k)) none = .ok (.spaces (.int k)) ∧
+    Base.WsBetween.judgeF (.lt (.ok k)) (some k.toNat) = .ok (.spaces (.int (k - 1))) :=
+  Base.WsBetween.judgeF_lt_oscillates k
+
+/-- on tokens: `signal a: bit` under `number_of_spaces: ">1"` — first fix one blank, second analysis wants two;
+    the first fix of `"<1"` inserts a blank that the second analysis wants removed (endless on re-parsed text) -/
+theorem wsBetween_oscillation_witness :
+    let a : Tok := ⟨9, .code, "a".toList⟩
+    let c : Tok := ⟨9, .code, ":".toList⟩
+    let w : Tok := ⟨Gen.wsCls, .ws, " ".toList⟩
+    Base.WsBetween.analyzeToi (.str ">1".toList) [a, c] = .ok (.spaces (.int 1)) ∧
+    Base.WsBetween.fixV Gen.wsCls (.str ">1".toList) [("spaces", .int 1)] [a, c] = .ok [a, w, c] ∧
+    Base.WsBetween.analyzeToi (.str ">1".toList) [a, w, c] = .ok (.spaces (.int 2)) ∧
+    Base.WsBetween.analyzeToi (.str "<1".toList) [a, c] = .ok (.spaces (.int 1)) ∧
+    Base.WsBetween.analyzeToi (.str "<1".toList) [a, w, c] = .ok (.spaces (.int 0)) := by
+  intro a c w
+  exact ⟨rfl, rfl, rfl, rfl, rfl⟩
+
+/-- `"<=N"`, `">=N"`, `"N+"` and plain integers N ≥ 0 are admitted by the guard whatever the region looks like -/
+example : ∀ l, Base.WsBetween.idemGuard (.str "<=2".toList) l = true := by intro l; rfl
+example : ∀ l, Base.WsBetween.idemGuard (.str ">=1".toList) l = true := by intro l; rfl
+example : ∀ l, Base.WsBetween.idemGuard (.int 1) l = true := by intro l; rfl
+
+/-- non-vacuity of `bfix_wsBetween_idem_partial`: three blanks under `number_of_spaces: 1` -/
+example :
+    let a : Tok := ⟨9, .code, "a".toList⟩
+    let c : Tok := ⟨9, .code, ":".toList⟩
+    let l : List Tok := [a, ⟨Gen.wsCls, .ws, "   ".toList⟩, c]
+    Base.WsBetween.analyzeToi (.int 1) l = .ok (.spaces (.int 1)) ∧
+    Base.WsBetween.fixV Gen.wsCls (.int 1) [("spaces", .int 1)] l = .ok [a, ⟨Gen.wsCls, .ws, " ".toList⟩, c] ∧
+    Base.WsBetween.shapeOk l = true ∧ Base.WsBetween.idemGuard (.int 1) l = true := by
+  intro a c l
+  exact ⟨rfl, rfl, rfl, rfl⟩
+
+/-! END ag_bws -/
 
 end Vsgm.C10
